@@ -360,6 +360,11 @@ func (p *envPickler) Pickle(x starlark.Value) (module, name string, args starlar
 		defaults, freevars := x.Env()
 		return "dawn", "Function", starlark.Tuple{defaults, freevars, x.Code()}, nil
 	default:
+		if x.Type() == "mandatory" {
+			// The interpreter's marker for a keyword-only parameter that has no default,
+			// found among a function's default parameter values.
+			return "dawn", "Mandatory", starlark.Tuple{}, nil
+		}
 		return "", "", nil, pickle.ErrCannotPickle
 	}
 }
@@ -367,6 +372,8 @@ func (p *envPickler) Pickle(x starlark.Value) (module, name string, args starlar
 // envUnpickler provides support for unpickling functions and modules.
 //
 //   - Builtins are unpickled from (NEWOBJ "dawn" "Builtin" ()) into ()
+//   - The marker for a parameter with no default is unpickled from (NEWOBJ "dawn" "Mandatory" ())
+//     into ()
 //   - Function code is unpickled from (NEWOBJ "dawn" "FunctionCode" (module, globals, bytecode))
 //     into a dictionary.
 //   - Functions are unpickled from (NEWOBJ "dawn" "Function" (defaults, freevars, code))
@@ -382,7 +389,7 @@ func envUnpickler(module, name string, args starlark.Tuple) (starlark.Value, err
 			return nil, fmt.Errorf("expcted 1 arg, got %v", len(args))
 		}
 		return args[0], nil
-	case "Builtin":
+	case "Builtin", "Mandatory":
 		if len(args) != 0 {
 			return nil, fmt.Errorf("expected 0 args, got %v", len(args))
 		}
